@@ -17,7 +17,7 @@ import (
 func init() {
 	register(stream{
 		name: "meta",
-		rule: "key validation (nil, empty, 1–64 bytes, all-zero, one non-zero byte) against the model; plaintexts (empty, short, long, binary, invalid UTF-8) × key pairs: AddEncrypted then GetEncryptedString/GetEncryptedBytes, directly and after the token is sealed and unsealed (delegation and invocation, DAG-CBOR and DAG-JSON), with the right key, a wrong key, and EVERY single-bit modification of the stored value — the decryption verdict of x/crypto's secretbox.Open computed by the harness is given to the model as an oracle; stored length = plaintext + 40; two encryptions of one value differ; crypto/rand.Reader replaced by a source that fails after 0…30 bytes (encryption must fail unless a whole nonce was drawn, and store the drawn nonce); the plaintext occurs neither in the stored value nor in the sealed token. Added later: the key rules through the four WithEncryptedMeta* token options; one option value used for two tokens (ciphertexts must differ); an encrypted value under an existing key (refused or readable, never dropped silently); a plaintext returned by GetEncryptedBytes stays what it was while other values are read. Plaintexts of 4095…1 MiB bytes (around 4 KiB and 64 KiB) round-trip; one key BUFFER that holds key A, is overwritten with key B and then wiped: each call uses the bytes the buffer holds at that moment. Values encrypted under K are refused, by all four getters, to keys of another length that contain K or are contained in it, and to K changed in its first or last byte only. Non-trivial = every case. Distinct = distinct protocol lines.",
+		rule: "key validation (nil, empty, 1–64 bytes, all-zero, one non-zero byte) against the model; plaintexts (empty, short, long, binary, invalid UTF-8) × key pairs: AddEncrypted then GetEncryptedString/GetEncryptedBytes, directly and after the token is sealed and unsealed (delegation and invocation, DAG-CBOR and DAG-JSON), with the right key, a wrong key, and EVERY single-bit modification of the stored value — the decryption verdict of x/crypto's secretbox.Open computed by the harness is given to the model as an oracle; stored length = plaintext + 40; two encryptions of one value differ; crypto/rand.Reader replaced by a source that fails after 0…30 bytes (encryption must fail unless a whole nonce was drawn, and store the drawn nonce); the plaintext occurs neither in the stored value nor in the sealed token. Added later: the key rules through the four WithEncryptedMeta* token options; one option value used for two tokens (ciphertexts must differ); an encrypted value under an existing key (refused or readable, never dropped silently); a plaintext returned by GetEncryptedBytes stays what it was while other values are read. Plaintexts of 4095…1 MiB bytes (around 4 KiB and 64 KiB) round-trip; one key BUFFER that holds key A, is overwritten with key B and then wiped: each call uses the bytes the buffer holds at that moment. Values encrypted under K are refused, by all four getters, to keys of another length that contain K or are contained in it, and to K changed in its first or last byte only. A valid key with one more byte in front or behind, for every value of that byte, and with two-byte tails (CR LF, blanks, NULs, padding): refused as a key of the wrong size, never trimmed into the valid key. Stored values sealed by the harness under the all-zero key: the all-zero key (and nil, 31- and 33-byte zero keys) is refused by the getters whatever the value would open to. Non-trivial = every case. Distinct = distinct protocol lines.",
 		run:  runMetaStream,
 		eval: evalMeta,
 		cmp: func(line, g, m string) string {
@@ -462,6 +462,15 @@ func runMetaStream(c *ctx) error {
 		first[0] = 0x80
 		keys = append(keys, hx(first))
 	}
+	// a valid key with ONE more byte, for every value of that byte (a key "normalised" before its size is looked at — a line
+	// ending, a blank, a NUL trimmed — would be taken for the 32-byte key), and with the usual two-byte tails / heads
+	valid := bytes.Repeat([]byte{0x4b}, 32)
+	for b := 0; b < 256; b++ {
+		keys = append(keys, hx(append(append([]byte(nil), valid...), byte(b))), hx(append([]byte{byte(b)}, valid...)))
+	}
+	for _, tail := range []string{"\r\n", "\n\n", "  ", "\x00\x00", "\n\r", "\t\n", "==", "\r\n\r\n"} {
+		keys = append(keys, hx(append(append([]byte(nil), valid...), tail...)), hx(append([]byte(tail), valid...)))
+	}
 	for _, k := range keys {
 		c.emit("meta.key "+k, "meta.validateKey", true, "key")
 	}
@@ -506,6 +515,20 @@ func runMetaStream(c *ctx) error {
 		get(nil, stored, "nil-key")
 		get(make([]byte, 32), stored, "zero-key")
 		get(key[:31], stored, "short-key")
+		// a stored value that was NOT made by AddEncrypted: sealed (by the harness, with x/crypto's secretbox) under the all-zero
+		// key. The key rules are the getters' own: the all-zero key is refused whatever the stored value would open to.
+		{
+			var zk [32]byte
+			var nonce [24]byte
+			for j := range nonce {
+				nonce[j] = byte(0x30 + i + j)
+			}
+			forged := secretbox.Seal(nonce[:], pt, &nonce, &zk)
+			get(zk[:], forged, "zero-key-forged")
+			get(nil, forged, "nil-key-forged")
+			get(zk[:31], forged, "short-zero-key-forged")
+			get(make([]byte, 33), forged, "long-zero-key-forged")
+		}
 		for b := 0; b < len(stored)*8; b++ {
 			mod := append([]byte(nil), stored...)
 			mod[b/8] ^= 1 << (b % 8)
@@ -545,7 +568,8 @@ func metaRelatedKeys() string {
 		flipFirst[0] ^= 1
 		flipLast[31] ^= 0x80
 		others := map[string][]byte{"K+1 byte": append(append([]byte(nil), k...), 0), "K+1 byte (non-zero)": append(append([]byte(nil), k...), 9), "K twice": append(append([]byte(nil), k...), k...),
-			"K without its last byte": k[:31], "0 then K": append([]byte{0}, k...), "K, first byte changed": flipFirst, "K, last byte changed": flipLast, "first 16 bytes of K": k[:16]}
+			"K without its last byte": k[:31], "0 then K": append([]byte{0}, k...), "K, first byte changed": flipFirst, "K, last byte changed": flipLast, "first 16 bytes of K": k[:16],
+			"K+LF": append(append([]byte(nil), k...), '\n'), "K+CRLF": append(append([]byte(nil), k...), '\r', '\n'), "K+blank": append(append([]byte(nil), k...), ' '), "blank+K": append([]byte{' '}, k...), "K+tab+LF": append(append([]byte(nil), k...), '\t', '\n')}
 		for name, o := range others {
 			for _, key := range []string{"s", "b", "e"} {
 				if v, err := m.GetEncryptedBytes(key, o); err == nil {
